@@ -14,7 +14,7 @@ use ipc_channel::platform::{self, verif_hooks as ph, OsIpcSharedMemory};
 use libc::c_int;
 use serde::{Deserialize, Serialize};
 
-pub const NB: usize = 12;
+pub const NB: usize = 17;
 
 pub struct Att {
     pub ch_obj: [i64; 2],    // kernel objects of the attached channels
@@ -157,31 +157,74 @@ fn mixed() {
     finish(&att);
 }
 
+/// C14 (receiving side): a receive nested inside a Deserialize impl, between two regions of the
+/// enclosing message.  Outer payload: index 0, (nothing for the nested field), index 1.
+static mut INNER: Option<OpaqueIpcMessage> = None;
+struct RecvNow(u8);
+impl Serialize for RecvNow {
+    fn serialize<S: serde::Serializer>(&self, _s: S) -> Result<S::Ok, S::Error> {
+        unimplemented!()
+    }
+}
+impl<'de> Deserialize<'de> for RecvNow {
+    fn deserialize<D: serde::Deserializer<'de>>(_d: D) -> Result<Self, D::Error> {
+        use serde::de::Error;
+        let m = unsafe { INNER.take() }.unwrap();
+        let (x, r) = m.to::<(u8, IpcSharedMemory)>().map_err(|_| D::Error::custom("inner"))?;
+        if r.len() != 3 || r[0] != 9 {
+            return Err(D::Error::custom("inner region"));
+        }
+        Ok(RecvNow(x))
+    }
+}
+fn de_nested() {
+    setup(64);
+    let ra = OsIpcSharedMemory::from_bytes(&[1u8, 1]);
+    let rb = OsIpcSharedMemory::from_bytes(&[2u8, 2, 2, 2]);
+    let rc = OsIpcSharedMemory::from_bytes(&[9u8, 9, 9]);
+    let x: u8 = kani::any();
+    let mut inner = vec![x];
+    inner.extend_from_slice(&0u64.to_le_bytes());
+    unsafe { INNER = Some(ipc::verif_hooks::opaque_message(inner, vec![], vec![rc])) };
+    let mut outer = Vec::new();
+    outer.extend_from_slice(&0u64.to_le_bytes());
+    outer.extend_from_slice(&1u64.to_le_bytes());
+    let m = ipc::verif_hooks::opaque_message(outer, vec![], vec![ra, rb]);
+    let r = m.to::<(IpcSharedMemory, RecvNow, IpcSharedMemory)>();
+    assert!(r.is_ok(), "C14: a receive nested in a Deserialize impl disturbed the enclosing message's attachments");
+    let (a, n, b) = r.unwrap();
+    assert!(n.0 == x && a.len() == 2 && a[0] == 1 && b.len() == 4 && b[0] == 2, "C14: enclosing message's regions misplaced after a nested receive");
+    drop((a, b));
+    assert!(env::nopen() == 0 && env::nmapped() == 0 && !env::bad_close(), "C11: ledger");
+    crate::reach_end!();
+}
+
 harnesses! {
-    #[unwind(14)] fn c16_u8_00() { plain::<u8>(0, 0) }
-    #[unwind(14)] fn c16_u32pair_00() { plain::<(u32, u32)>(0, 0) }
-    #[unwind(14)] fn c16_opt_u8_00() { plain::<Option<u8>>(0, 0) }
-    #[unwind(14)] fn c16_enum3_00() { plain::<E3>(0, 0) }
-    #[unwind(14)] fn c16_vec_u8_00() { plain::<Vec<u8>>(0, 0) }
+    #[unwind(14)] fn c14_de_nested() { de_nested() }
+    #[unwind(19)] fn c16_u8_00() { plain::<u8>(0, 0) }
+    #[unwind(19)] fn c16_u32pair_00() { plain::<(u32, u32)>(0, 0) }
+    #[unwind(19)] fn c16_opt_u8_00() { plain::<Option<u8>>(0, 0) }
+    #[unwind(19)] fn c16_enum3_00() { plain::<E3>(0, 0) }
+    #[unwind(19)] fn c16_vec_u8_00() { plain::<Vec<u8>>(0, 0) }
     // a type that references none of the attachments it came with
-    #[unwind(14)] fn c16_u8_10() { plain::<u8>(1, 0) }
-    #[unwind(14)] fn c16_u8_01() { plain::<u8>(0, 1) }
-    #[unwind(14)] fn c16_u8_21() { plain::<u8>(2, 1) }
-    #[unwind(14)] fn c16_sender_00() { sender(0, 0) }
-    #[unwind(14)] fn c16_sender_10() { sender(1, 0) }
-    #[unwind(14)] fn c16_sender_21() { sender(2, 1) }
-    #[unwind(14)] fn c16_sender_pair_10() { sender_pair(1) }
-    #[unwind(14)] fn c16_sender_pair_20() { sender_pair(2) }
-    #[unwind(14)] fn c16_receiver_10() { receiver(1) }
-    #[unwind(14)] fn c16_receiver_20() { receiver(2) }
-    #[unwind(14)] fn c16_shm_00() { shm(0) }
-    #[unwind(14)] fn c16_shm_01() { shm(1) }
-    #[unwind(14)] fn c16_shm_02() { shm(2) }
-    #[unwind(14)] fn c16_shm_pair_01() { shm_pair(1) }
-    #[unwind(14)] fn c16_shm_pair_02() { shm_pair(2) }
-    #[unwind(14)] fn c16_mixed_11() { mixed() }
+    #[unwind(19)] fn c16_u8_10() { plain::<u8>(1, 0) }
+    #[unwind(19)] fn c16_u8_01() { plain::<u8>(0, 1) }
+    #[unwind(19)] fn c16_u8_21() { plain::<u8>(2, 1) }
+    #[unwind(19)] fn c16_sender_00() { sender(0, 0) }
+    #[unwind(19)] fn c16_sender_10() { sender(1, 0) }
+    #[unwind(19)] fn c16_sender_21() { sender(2, 1) }
+    #[unwind(19)] fn c16_sender_pair_10() { sender_pair(1) }
+    #[unwind(19)] fn c16_sender_pair_20() { sender_pair(2) }
+    #[unwind(19)] fn c16_receiver_10() { receiver(1) }
+    #[unwind(19)] fn c16_receiver_20() { receiver(2) }
+    #[unwind(19)] fn c16_shm_00() { shm(0) }
+    #[unwind(19)] fn c16_shm_01() { shm(1) }
+    #[unwind(19)] fn c16_shm_02() { shm(2) }
+    #[unwind(19)] fn c16_shm_pair_01() { shm_pair(1) }
+    #[unwind(19)] fn c16_shm_pair_02() { shm_pair(2) }
+    #[unwind(19)] fn c16_mixed_11() { mixed() }
     // receiving a message with attachments and dropping it without decoding it
-    #[unwind(14)] fn c16_drop_undecoded_21() {
+    #[unwind(19)] fn c16_drop_undecoded_21() {
         setup(64);
         let (m, att) = garbage_message(2, 1);
         drop(m);
